@@ -16,6 +16,8 @@ Driver handler of the `ErrPos` area: `errpos <sub-op> …`
                                             | `ok C <lineno> <pos> frag-notpartial|frag-unsupported` | `none`
 * `errpos tok <s> <i>`                   – `<K> <start> <stop> <lineno> <pos> <lineOf start> <colOf start>` of the `i`-th node token
 * `errpos tokat <s> <off>`               – the node token that starts at offset `off` (same answer + its index)
+* `errpos sites`                         – the regenerated raise sites with the fault class the model assigns:
+                                            `file;function;message prefix;coordinates;class` (encoded), space separated
 * `errpos struct <s>`                    – lexer-level outcome: `ok` | `fuel` |
                                             `error <kind> <lineno> <pos> <faultStart|none> <line of it> <col of it>`
 -/
@@ -117,6 +119,9 @@ def handle : Handler
         | some t =>
           let kd := ((Lexer.Drv.encPayload t.payload).splitOn " ").headD ""
           s!"{kd} {t.start} {t.stop} {t.lineno} {t.pos} {lineOf s t.start} {colOf s t.start} {i}")
+  | ["sites"] =>
+    pure (" ".intercalate (Generated.ErrPos.raiseSites.map fun s =>
+      s!"{encStr s.1.toList};{encStr s.2.1.toList};{encStr s.2.2.1.toList};{encStr s.2.2.2.toList};{encStr ((siteClass s).getD "?").toList}"))
   | ["struct", s] => do
     let s ← decStr s
     let r := lex Cfg.current s
